@@ -432,6 +432,261 @@ func smallDatasets(iris, maxSize int) [][]quad {
 	return out
 }
 
+// ---- node hashes as invariants ----
+
+// isoHashes runs IsoCanonicalHashes (md5, dist=true) on a fresh copy of qs.
+func isoHashes(qs []quad, decomp bool) map[string][]byte {
+	h, _ := rdf.IsoCanonicalHashes(mkStatements(qs, nil), decomp, true, md5.New(), make([]byte, 16))
+	return h
+}
+
+// blankSig is the first-degree neighbourhood of the blank node x: for every
+// statement that mentions x, the position of x, the predicate and the other
+// terms including the graph label, with other blank nodes anonymised. The
+// first hashing round of doi:10.1145/3068333 (with the dataset extension)
+// folds exactly this into the hash of x, and every later hash of x is a hash
+// of a tuple that contains it, so two blank nodes (of one or of two datasets)
+// with the same hash must have the same blankSig.
+func blankSig(qs []quad, x string) string {
+	anon := func(t string) string {
+		if strings.HasPrefix(t, "_:") {
+			return "_"
+		}
+		return t
+	}
+	var parts []string
+	for _, qd := range qs {
+		for pos, t := range qd {
+			if pos == 1 || t != x {
+				continue
+			}
+			o := qd
+			o[pos] = "@" // x itself
+			parts = append(parts, fmt.Sprintf("%d|%s|%s|%s|%s", pos, anon(o[0]), o[1], anon(o[2]), anon(o[3])))
+		}
+	}
+	sort.Strings(parts)
+	return strings.Join(parts, " ; ")
+}
+
+// hashClash looks for blank nodes x of a and y of b with the same hash and
+// different first-degree neighbourhoods.
+func hashClash(a []quad, ha map[string][]byte, b []quad, hb map[string][]byte) string {
+	for _, x := range blanksOf(a) {
+		for _, y := range blanksOf(b) {
+			if ha[x] == nil || string(ha[x]) != string(hb[y]) {
+				continue
+			}
+			if sa, sb := blankSig(a, x), blankSig(b, y); sa != sb {
+				return fmt.Sprintf("%s in %v and %s in %v have the same hash %x but different neighbourhoods {%s} and {%s}", x, a, y, b, ha[x], sa, sb)
+			}
+		}
+	}
+	return ""
+}
+
+// hashRelabel renders qs with every blank node replaced by its hash: the
+// canonical graph of the paper. Two datasets are isomorphic iff these agree.
+func hashRelabel(qs []quad, h map[string][]byte) string {
+	var lines []string
+	for _, qd := range qs {
+		for i, t := range qd {
+			if i != 1 && strings.HasPrefix(t, "_:") {
+				qd[i] = fmt.Sprintf("_:%x", h[t])
+			}
+		}
+		lines = append(lines, strings.Join(qd[:], " "))
+	}
+	sort.Strings(lines)
+	return strings.Join(lines, "\n")
+}
+
+// fileIsoFalsePositive files Isomorphic(a,b)=true for non-isomorphic a, b.
+// The open finding rdf-isomorphic-false-positive is that Isomorphic compares
+// the sorted node hashes instead of the hash-relabelled statements; that
+// explains a false positive only if the hashes themselves are sound, i.e.
+// blank nodes with equal hashes have equal neighbourhoods. Anything else is
+// a plain violation.
+func fileIsoFalsePositive(r *rep, a, b []quad, decomp bool) {
+	var clash string
+	if p := catch(func() { clash = hashClash(a, isoHashes(a, decomp), b, isoHashes(b, decomp)) }); p != "" {
+		r.Failf("IsoCanonicalHashes panicked on %v / %v: %s", a, b, p)
+		return
+	}
+	if clash != "" {
+		r.Failf("Isomorphic(a, b, decomp=%v)=true for non-isomorphic datasets because node hashes ignore part of the neighbourhood: %s", decomp, clash)
+		return
+	}
+	r.finding("rdf-isomorphic-false-positive", fmt.Sprintf("decomp=%v", decomp), "Isomorphic(a, b, decomp=%v)=true, but no bijection of blank nodes maps a onto b: a=%v b=%v (only the multisets of node hashes are compared)", decomp, a, b)
+}
+
+// ---- exhaustive small quad datasets ----
+
+const (
+	iG1 = "<http://e.org/g1>"
+	iG2 = "<http://e.org/g2>"
+)
+
+type quadUniverse struct {
+	name                string
+	blanks, iris, preds int
+	labels              []string
+	size                int
+	// sameTerms: only pairs with the same set of ground terms are examined
+	// (quick tier, larger universes); the others differ in a ground hash.
+	sameTerms bool
+}
+
+// groundTerms is the sorted set of non-blank terms of a dataset.
+func groundTerms(qs []quad) string {
+	m := map[string]bool{}
+	for _, qd := range qs {
+		for _, t := range qd {
+			if !strings.HasPrefix(t, "_:") {
+				m[t] = true
+			}
+		}
+	}
+	l := make([]string, 0, len(m))
+	for t := range m {
+		l = append(l, t)
+	}
+	sort.Strings(l)
+	return strings.Join(l, " ")
+}
+
+func (u quadUniverse) quads() []quad {
+	nodes := append([]string{"_:a", "_:b", "_:c"}[:u.blanks], []string{iI, iJ}[:u.iris]...)
+	var out []quad
+	for _, s := range nodes {
+		for _, p := range []string{iP, iQ}[:u.preds] {
+			for _, o := range nodes {
+				for _, l := range u.labels {
+					out = append(out, quad{s, p, o, l})
+				}
+			}
+		}
+	}
+	return out
+}
+
+func subsetsUpTo(u []quad, maxSize int) [][]quad {
+	var out [][]quad
+	var rec func(start int, cur []quad)
+	rec = func(start int, cur []quad) {
+		if len(cur) > 0 {
+			out = append(out, append([]quad(nil), cur...))
+		}
+		if len(cur) == maxSize {
+			return
+		}
+		for i := start; i < len(u); i++ {
+			rec(i+1, append(cur, u[i]))
+		}
+	}
+	rec(0, nil)
+	return out
+}
+
+// checkQuadPair applies every oracle to one pair; ha holds the hashes of a
+// per decomp setting (computed once per case).
+func checkQuadPair(r *rep, t *vlib.T, a, b []quad, ha [2]map[string][]byte) {
+	want := bruteIso(a, b)
+	for di, decomp := range []bool{false, true} {
+		var got bool
+		var hb map[string][]byte
+		if p := catch(func() {
+			got = rdf.Isomorphic(mkStatements(a, nil), mkStatements(b, nil), decomp, md5.New())
+			hb = isoHashes(b, decomp)
+		}); p != "" {
+			r.Failf("Isomorphic/IsoCanonicalHashes panicked on %v / %v: %s", a, b, p)
+			continue
+		}
+		t.Count("rdf_quad_pairs", 1)
+		if want {
+			t.Count("rdf_quad_pairs_isomorphic", 1)
+		}
+		switch {
+		case want && !got:
+			r.Failf("Isomorphic(a, b, decomp=%v)=false, but a bijection of blank nodes maps a onto b: a=%v b=%v", decomp, a, b)
+		case !want && got:
+			fileIsoFalsePositive(r, a, b, decomp)
+		}
+		// the hashes themselves: sound, and canonical up to relabeling
+		if clash := hashClash(a, ha[di], b, hb); clash != "" {
+			r.Failf("IsoCanonicalHashes(decomp=%v): %s", decomp, clash)
+		}
+		if same := hashRelabel(a, ha[di]) == hashRelabel(b, hb); same != want {
+			r.Failf("IsoCanonicalHashes(decomp=%v): hash-relabelled datasets equal=%v, exhaustive bijection search says isomorphic=%v: a=%v b=%v", decomp, same, want, a, b)
+		}
+	}
+}
+
+func genRDFQuadIso(g *vlib.G) {
+	three := []string{"", iG1, iG2}
+	universes := []quadUniverse{
+		{name: "b2-i1-p1-g3", blanks: 2, iris: 1, preds: 1, labels: three, size: 2},
+		{name: "b2-i2-p1-g2", blanks: 2, iris: 2, preds: 1, labels: three[:2], size: 2, sameTerms: !g.Thorough()},
+	}
+	if g.Thorough() {
+		universes = append(universes,
+			quadUniverse{name: "b2-i1-p1-g3-size3", blanks: 2, iris: 1, preds: 1, labels: three, size: 3, sameTerms: true},
+			quadUniverse{name: "b3-i2-p1-g3", blanks: 3, iris: 2, preds: 1, labels: three, size: 2, sameTerms: true},
+			quadUniverse{name: "b2-i1-p2-g3", blanks: 2, iris: 1, preds: 2, labels: three, size: 2})
+	}
+	for _, u := range universes {
+		u := u
+		n := len(subsetsUpTo(u.quads(), u.size))
+		for i := 0; i < n; i++ {
+			i := i
+			g.Case(fmt.Sprintf("%s all-pairs dataset=%d", u.name, i), func(t *vlib.T) {
+				r := newRep(t)
+				sets := subsetsUpTo(u.quads(), u.size)
+				a := sets[i]
+				ha := [2]map[string][]byte{isoHashes(a, false), isoHashes(a, true)}
+				ga := groundTerms(a)
+				for j := i; j < len(sets); j++ {
+					if u.sameTerms && groundTerms(sets[j]) != ga {
+						continue
+					}
+					checkQuadPair(r, t, a, sets[j], ha)
+				}
+				t.Nontrivial()
+			})
+		}
+	}
+	// every 3-statement dataset against each of its single-statement graph
+	// label mutations (quick: this replaces all pairs at size 3)
+	u := universes[0]
+	sets3 := subsetsUpTo(u.quads(), 3)
+	for i := range sets3 {
+		i := i
+		if len(sets3[i]) != 3 {
+			continue
+		}
+		g.Case(fmt.Sprintf("%s label-mutations dataset=%d", u.name, i), func(t *vlib.T) {
+			r := newRep(t)
+			a := subsetsUpTo(u.quads(), 3)[i]
+			ha := [2]map[string][]byte{isoHashes(a, false), isoHashes(a, true)}
+			for k := range a {
+				for _, l := range u.labels {
+					if l == a[k][3] {
+						continue
+					}
+					b := append([]quad(nil), a...)
+					b[k][3] = l
+					if len(quadSet(b)) != len(b) {
+						continue // the mutation collides with another statement
+					}
+					checkQuadPair(r, t, a, b, ha)
+					t.Count("rdf_quad_label_mutations", 1)
+				}
+			}
+			t.Nontrivial()
+		})
+	}
+}
+
 func genRDFIsoPairs(g *vlib.G) {
 	type universe struct{ iris, size int }
 	us := []universe{{1, 3}, {2, vlib.Pick(g, 2, 3)}}
@@ -469,10 +724,7 @@ func genRDFIsoPairs(g *vlib.G) {
 								continue
 							}
 							if got && !want {
-								// Isomorphic compares the sorted node hashes of the two datasets,
-								// not the hash-relabelled statements: every false positive is
-								// filed under one class; a false negative is a plain failure.
-								r.finding("rdf-isomorphic-false-positive", fmt.Sprintf("decomp=%v", decomp), "Isomorphic(a, b, decomp=%v)=true, but no bijection of blank nodes maps a onto b: a=%v b=%v (only the multisets of node hashes are compared)", decomp, x, y)
+								fileIsoFalsePositive(r, x, y, decomp)
 							} else {
 								r.Failf("Isomorphic(a, b, decomp=%v)=%v, exhaustive bijection search says %v: a=%v b=%v", decomp, got, want, x, y)
 							}
